@@ -35,6 +35,7 @@ from ngo.utils.ast import (
     body_predicates,
     collect_ast,
     collect_bound_variables,
+    conditional_literal_predicate,
     headderivable_predicates,
     literal_predicate,
     minimize_predicates,
@@ -61,6 +62,13 @@ class RuleDependency:
                     self.head2rules[head].append(stm)
             for p in chain(body_predicates(stm, SIGNS), minimize_predicates(stm, SIGNS)):
                 self.pred2stm[p.pred].append(stm)
+            if stm.ast_type in (ASTType.External, ASTType.Edge, ASTType.Heuristic, ASTType.ProjectAtom):
+                # directives use predicates as well
+                for blit in stm.body:
+                    for p in chain(literal_predicate(blit, SIGNS), conditional_literal_predicate(blit, SIGNS)):
+                        self.pred2stm[p.pred].append(stm)
+                if stm.ast_type != ASTType.Edge and stm.atom.symbol.ast_type == ASTType.Function:
+                    self.pred2stm[Predicate(stm.atom.symbol.name, len(stm.atom.symbol.arguments))].append(stm)
 
     def get_bodies(self, head: Predicate) -> list[AST]:
         """return all bodies of head predicate"""
